@@ -52,6 +52,11 @@ NA = {
 
 # id -> (category, text, note, technique, design_ref)
 CLAIMED = {
+ "C40": ("fault_enumeration",
+         "call_with_inference_limit/3 is the system's own preemption timer over its logical inference clock; the limit L is swept over every value from 0 to the goal's completion threshold + 5 (cap 160), i.e. the timer fires at every inference of the goal, for 29 library goals and seeded compositions (conjunction, disjunction, negation, if-then-else, nested limits). Answers and R values are observed through the query iterator. Relations checked: determinism (ascending sweep on one machine vs shuffled sweep on a second machine with a different history), faithfulness (solutions are a prefix of the goal's own solutions; R in {true, !, inference_limit_exceeded}; ! and inference_limit_exceeded only last; no inference_limit_exceeded => all solutions; exceptions pass through), monotonicity in L, constant nesting overhead over an (a,m) grid, fresh-machine follow-up afterwards.",
+         "Only implementation-independent relations are asserted (no absolute inference counts). For goals that themselves contain an inner limit, only determinism and result-shape are asserted (the documentation says only the last limit is in power). Goals needing more than 160 inferences are checked up to the cap.",
+         "deterministic simulation: sweep of the system's own step-budget timer over every inference of seeded goals; relational oracles across limits, machines and histories",
+         "DESIGN.md §3 C40"),
  "C30": ("fault_enumeration",
          "The allocator's verdict is hooked in InnerHeap::grow: the k-th growth attempt after arming fails (one-shot), under production, small-initial and exact-fit growth policies (exact-fit makes every allocation site a growth attempt) inside guarded allocations. Position k is sampled over the unfaulted run's attempts (biased to first/last), for 20 workloads x 3 sizes. Oracle: no panic/abort/hang; the query ends with error(resource_error(memory), _) (caught by the goal's catch/3 or escaping), never with its normal answer or another ball; the follow-up battery then gives fresh-machine answers; canaries intact. Failure sites are keyed by the crate functions above grow() in a captured backtrace, library catch-alls by the predicate that called the catching catch/3.",
          "Trusts that exact-fit growth inside a managed allocation exercises the same propagation paths as production doubling (re-run under production/small policies too); only Heap growth is failed (not the stack, arena or Vec allocations); bursts of consecutive failures are out of the stated quantifier and not injected.",
